@@ -490,8 +490,37 @@ func useOrdinal(e *Event) string {
 func ruleT2rel(c *Ctx, id string) {
 	R, P := c.R, c.P
 	t := c.tsPreamble(id)
+	type agg struct {
+		bad     bool
+		why     string
+		pos     string
+		entries []string
+	}
+	res := map[string]*agg{}
 	for _, e := range sortedEvents(t, "release") {
-		key := fmt.Sprintf("%s|early release|%s", FuncName(e.Fn), e.Entry)
-		R.Check(!e.Bad, id, key, P.Pos(e.Pos), "an early release gives up only a lock acquired at the same site for a look, never one the transaction already held", e.Detail, e.Detail+" (entry "+e.Entry+", stack "+e.Stack+")")
+		src := e.Extra["src"]
+		if i := strings.Index(src, ":"); i >= 0 {
+			src = src[:i]
+		}
+		key := fmt.Sprintf("%s|early release of %s inode", FuncName(e.Fn), src)
+		a := res[key]
+		if a == nil {
+			a = &agg{pos: P.Pos(e.Pos)}
+			res[key] = a
+		}
+		a.entries = append(a.entries, e.Entry)
+		if e.Bad {
+			a.bad = true
+			a.why = e.Detail + " (entry " + e.Entry + ", stack " + e.Stack + ")"
+		}
+	}
+	var keys []string
+	for k := range res {
+		keys = append(keys, k)
+	}
+	sort.Strings(keys)
+	for _, k := range keys {
+		a := res[k]
+		R.Check(!a.bad, id, k, a.pos, "an early release gives up only a lock acquired at the same site for a look, never one the transaction already held", fmt.Sprintf("released inode was acquired at this site on every explored path (%d entry contexts)", len(a.entries)), a.why)
 	}
 }
